@@ -46,6 +46,51 @@ def same_mod_1d_size(a, b):
     return norm(a) == norm(b)
 
 
+def vectorised_big_endian(fnode):
+    """recognises the column-wise sibling of dec2bin: for an (n, k) zeros array X and i = k-1 ... 0:  X[:, i] = num % 2; num //= 2,
+    returned flattened row by row - the concatenation of the k-digit big-endian expansions of the n values"""
+    a = fnode.args
+    if len(a.args) < 2:
+        return False
+    vals, k = a.args[0].arg, a.args[1].arg
+    body = [b for b in fnode.body if not (isinstance(b, ast.Expr) and isinstance(b.value, ast.Constant))]
+    loops = [b for b in body if isinstance(b, ast.For)]
+    if len(loops) != 1 or not isinstance(loops[0].target, ast.Name):
+        return False
+    lp = loops[0]
+    i = lp.target.id
+    if src_of(lp.iter).replace(" ", "") not in (f"range({k}-1,-1,-1)", f"reversed(range({k}))", f"range({k})[::-1]"):
+        return False
+    aliases = {vals}
+    for b in body:
+        if b is lp:
+            break
+        if isinstance(b, ast.Assign) and len(b.targets) == 1 and isinstance(b.targets[0], ast.Name) and isinstance(b.value, ast.Name) and b.value.id in aliases:
+            aliases.add(b.targets[0].id)
+    store = halve = None
+    for st_ in lp.body:
+        if isinstance(st_, ast.Assign) and isinstance(st_.targets[0], ast.Subscript) and src_of(st_.targets[0].slice).replace(" ", "").strip("()") == f":,{i}":
+            v = src_of(st_.value).replace(" ", "")
+            if any(v in (f"{nm}%2", f"{nm}&1") for nm in aliases):
+                store = st_
+        if isinstance(st_, ast.AugAssign) and isinstance(st_.target, ast.Name) and st_.target.id in aliases and isinstance(st_.op, (ast.FloorDiv, ast.RShift)):
+            halve = st_
+        if isinstance(st_, ast.Assign) and isinstance(st_.targets[0], ast.Name) and st_.targets[0].id in aliases \
+                and any(src_of(st_.value).replace(" ", "") in (f"{nm}//2", f"{nm}>>1") for nm in aliases):
+            halve = st_
+    if store is None or halve is None or store.lineno > halve.lineno or len(lp.body) != 2:
+        return False
+    arr = src_of(store.targets[0].value)
+    alloc = [b for b in body if isinstance(b, ast.Assign) and src_of(b.targets[0]) == arr and isinstance(b.value, ast.Call) and src_of(b.value.func).split(".")[-1] == "zeros"]
+    if len(alloc) != 1 or not alloc[0].value.args:
+        return False
+    shape = src_of(alloc[0].value.args[0]).replace(" ", "")
+    if shape not in (f"({vals}.size,{k})", f"(len({vals}),{k})", f"({vals}.shape[0],{k})"):
+        return False
+    rets = [b for b in body[body.index(lp):] if isinstance(b, ast.Return)]
+    return len(rets) == 1 and src_of(rets[0].value).replace(" ", "") in (f"{arr}.ravel()", f"{arr}.reshape(-1)", f"{arr}.flatten()", f"np.ravel({arr})")
+
+
 def pow2_guard(ctx, fi, rule, param_classes=None):
     from ..rules import check_pow2_guard
     check_pow2_guard(ctx, rule, fi, param_classes=param_classes)
@@ -129,6 +174,14 @@ def run(ctx):
                 why = f"symbol values are {lc[2][1]!r}, expected ON positions modulo M"
             else:
                 why = f"per-symbol expansion is {lc[2][0]!r}, expected dec2bin(x, int(log2(M)))"
+        if not ok:
+            # a vectorised sibling of dec2bin applied to the same positions
+            for r in it.calls:
+                if r.depth == 0 and r.callee and r.callee.startswith("opticomlib.") and len(r.args) >= 2 and r.args[0] == pos and r.args[1] == k:
+                    q = r.callee.split(".", 1)[1]
+                    cal = pkg.module(q.split(".")[0]).funcs.get(q)
+                    if cal is not None and vectorised_big_endian(cal.node):
+                        ok = True
         ctx.check("C12.3", ok, fd, rets[0].node, "PPM_DECODER: ON position mod M -> dec2bin(., k)", "inverse of the encoder on whole symbols", why)
     else:
         ctx.unknown("C12.3", fd, fd.node, "PPM_DECODER", f"{len(rets)} return paths")
@@ -162,10 +215,20 @@ def run(ctx):
         ctx.check("C12.4", ok_sl, fh, st_clear[0][1], f"HDD multiple symbol: {src_of(st_clear[0][1])}", "clears exactly the symbol slice [i*M, (i+1)*M) for i in where(s > 1)",
                   "the cleared range is not the symbol [i*M:(i+1)*M] over where(s>1): symbols with exactly one ON slot could be touched")
         idx = st_keep[0][2][2]
-        sym_before = Form.atom(("idx", D, SliceV(i_multi * M, (i_multi + 1) * M, Const(None))))
-        j = Form.atom(("idx", mk_fn("where", [mk_fn("eq", [sym_before, Form.num(1)])]), Form.num(0)))
-        want = i_multi * M + mk_fn("numpy.random.choice", [j])
-        ctx.check("C12.4", idx == want and is_one(st_keep[0][3]) and st_keep[0][1].lineno > st_clear[0][1].lineno, fh, st_keep[0][1], f"HDD multiple symbol: {src_of(st_keep[0][1])}",
+        # the symbol as it is when the loop reaches it: the working copy (input data, possibly repaired by earlier iterations)
+        arr_name = st_keep[0][2][3].id if isinstance(st_keep[0][2][3], ast.Name) else None
+        bases = [D]
+        for lp_, envs_ in it.loop_envs.items():
+            hv = envs_[1].get(arr_name) if arr_name else None
+            if isinstance(hv, Form):
+                bases.append(hv)
+        wants = []
+        for b_ in bases:
+            sym_before = Form.atom(("idx", b_, SliceV(i_multi * M, (i_multi + 1) * M, Const(None))))
+            j = Form.atom(("idx", mk_fn("where", [mk_fn("eq", [sym_before, Form.num(1)])]), Form.num(0)))
+            wants.append(i_multi * M + mk_fn("numpy.random.choice", [j]))
+        want = wants[0]
+        ctx.check("C12.4", idx in wants and is_one(st_keep[0][3]) and st_keep[0][1].lineno > st_clear[0][1].lineno, fh, st_keep[0][1], f"HDD multiple symbol: {src_of(st_keep[0][1])}",
                   "keeps i*M + choice(j), j = ON slots of that symbol read before the clear",
                   f"kept slot index {idx!r} is not i*M + choice(where(symbol == 1)) of the symbol as it was before clearing: the kept slot need not have been ON")
     else:
@@ -212,7 +275,9 @@ def run(ctx):
         for kind, ass, pc in (("str", {"input": ("inst", "str")}, {}), ("list", {"input": ("inst", "list")}, {}), ("binary_sequence", {}, {"input": "binary_sequence"})):
             it = Interp(pkg, assumptions=ass, param_classes=pc, no_inline=("str2array", "dec2bin"))
             it.run(f)
-            first = next((v for (ff, stmt, name, v, conds, depth) in it.assign_log if depth == 0 and name == "input"), None)
+            # the converted array by its role: the first top-level local holding a conversion of the argument
+            first = next((v for (ff, stmt, name, v, conds, depth) in it.assign_log if depth == 0 and isinstance(v, Form)
+                          and (name == "input" or v in (S("input"), D) or (v.single_atom() or ("",))[0] == "fn" and (v.single_atom() or ("", ""))[1] == "str2array")), None)
             okc = first is not None and isinstance(first, Form)
             if kind == "str":
                 okc = okc and first == mk_fn("str2array", [S("input"), __import__("ocv.absint", fromlist=["ClassRef"]).ClassRef("bool")])
